@@ -39,7 +39,11 @@ def _get_growth(model: Model) -> Tuple[float, str]:
     try:
         if "moma_old_objective" in model.solver.variables:
             model.slim_optimize()
-            growth = model.solver.variables.moma_old_objective.primal
+            # without an optimum the primal value is whatever the solver left behind
+            if model.solver.status == "optimal":
+                growth = model.solver.variables.moma_old_objective.primal
+            else:
+                growth = float("nan")
         else:
             growth = model.slim_optimize()
     except SolverError:
